@@ -183,7 +183,7 @@ void profile_twin(RunCtx& ctx)
         for (auto& t : m.templs)
             has_dyn |= t.dynamic;
         // (the old syntax has no empty process body)
-        if (!(f == MF_DUP_TEMPLATE_NAME && has_dyn) && !(f == MF_EMPTY_TEMPLATE && m.old_syntax) && apply_model_fault(m, f, rng)) {
+        if (!(f == MF_DUP_TEMPLATE_NAME && has_dyn) && !(f == MF_EMPTY_TEMPLATE && m.old_syntax) && apply_model_fault(m, f, rng, true)) {
             if (f == MF_DUP_LOC_NAME) {
                 // XTA attaches urgent/commit flags by name, XML by element: for namesakes only "no flag" means the same in both
                 for (auto& t : m.templs)
